@@ -9,6 +9,7 @@ CONSTANTS
   OddKinds = {"create_odd", "create_dot"}
   MaxSetup = 4
   MaxProbes = 2
+  MaxAfter = 0
   DotNameHandled = FALSE
   RpcPosCheckedFirst = FALSE
   Utf8LabelsHandled = FALSE
